@@ -338,9 +338,18 @@ pub fn c18(tier: &str, seed: u64, meta: &str) -> Report {
                     let (ka, kb) = match (fpr.keys_for(a), fpr.keys_for(b)) { (Some(x), Some(y)) => (x, y), _ => continue };
                     let key = format!("x{}", bits);
                     if !sessions.contains_key(&key) {
+                        // two of the four option sets live in a context that was created with the phonetic method and
+                        // re-configured to the fixed layout afterwards (the tables of a context are loaded when it is built)
+                        if bits & 4 != 0 {
+                            match Session::new(w, Opts::phonetic(&home), None, None, "c18") {
+                                Ok(mut s) => { feed(w, &mut s, &[SEv::UpdateLayout(PROBHAT.into(), bits)], rep, "C18"); sessions.insert(key.clone(), s); }
+                                Err(e) => { rep.diff(json!({"what": "context creation failed", "error": e})); return; }
+                            }
+                        } else {
                         let mut o = Opts::fixed(PROBHAT, &home);
                         set_xbits(&mut o, bits);
                         match Session::new(w, o, None, None, "c18") { Ok(s) => { sessions.insert(key.clone(), s); } Err(e) => { rep.diff(json!({"what": "context creation failed", "error": e})); return; } }
+                        }
                     }
                     let s = sessions.get_mut(&key).unwrap();
                     if s.history.len() > 4000 { s.history.clear(); }
@@ -374,7 +383,7 @@ pub fn c18(tier: &str, seed: u64, meta: &str) -> Report {
             }
         }
     });
-    rep.extra.insert("rule".into(), json!(format!("ALL {} emoticons (phonetic, 4 option sets), ALL {} English emoji names (phonetic, 4 option sets x {} wrappers, each with its ANSI twin for the frame clause), ALL {} Bengali emoji names that Probhat can type (fixed, 4 option sets x {} wrappers); ALL emoticons again in the fixed method by their raw keys (2 option sets, typed straight away and after an erased start: merging key pairs or random keys, then backspaces until empty); wrappers include punctuation on one side only; non-trivial = emoticon, or a name with more than one emoji", n_emot, n_names, wrappers.len(), n_bn, wrappers.len())));
+    rep.extra.insert("rule".into(), json!(format!("ALL {} emoticons (phonetic, 4 option sets), ALL {} English emoji names (phonetic, 4 option sets x {} wrappers, each with its ANSI twin for the frame clause), ALL {} Bengali emoji names that Probhat can type (fixed, 4 option sets x {} wrappers; two of the option sets in a context created phonetic and re-configured to Probhat); ALL emoticons again in the fixed method by their raw keys (2 option sets, typed straight away and after an erased start: merging key pairs or random keys, then backspaces until empty); wrappers include punctuation on one side only; non-trivial = emoticon, or a name with more than one emoji", n_emot, n_names, wrappers.len(), n_bn, wrappers.len())));
     rep.extra.insert("exhaustive".into(), json!(true));
     rep
 }
